@@ -70,6 +70,8 @@ def ptm(e, top=False):
         return e[2]
     if k == "empty":
         return "%empty" if top else ""
+    if k == "marker":
+        return "." + e[1]
     raise ValueError(k)
 
 
@@ -108,6 +110,8 @@ def pgo(e, symid, ntidx):
         return "verifSetOf(%s)" % ", ".join(str(symid[t]) for t in e[1])
     if k == "empty":
         return "verifSeq()"
+    if k == "marker":
+        return "verifMarker()"
     raise ValueError(k)
 
 
@@ -168,6 +172,16 @@ EXT = [
     EG("x10", "abc", ["Sx"], [("Sx", [(S(N("Rl"), L(T("c"), False)), "Top")]), ("Rl", [(seq("a", "Rl"), "Cons"), (seq("b"), "Nil")])]),
 ]
 
+EXT += [
+    # two lists whose elements differ only in the node name
+    EG("x11", "axy", ["Sx"], [("Sx", [(S(T("x"), L(AR("Foo", T("a")), True), T("y"), L(AR("Bar", T("a")), True)), "Top")])]),
+    # an empty annotated part that is not the first symbol of its rule
+    EG("x12", "abc", ["Sx"], [("Sx", [(S(T("a"), AR("Opt", O(T("b"))), T("c")), "Top")])]),
+    EG("x13", "abc", ["Sx"], [("Sx", [(S(T("a"), T("b"), AR("Mid", O(T("c"))), AR("Also", O(T("a"))), T("b")), "Top")])]),
+    # rules ending in a nullable symbol followed by a state marker
+    EG("x14", "abc", ["Sx"], [("Sx", [(S(L(N("It"), True), T("c")), "Top")]), ("It", [(S(T("a"), N("Nb"), ("marker", "mk")), "Item")]), ("Nb", [(S(AR("Bs", L(T("b"), True))), None), (("seq", []), None)])]),
+]
+
 # notation forms for C13 (no annotations needed; every nonterminal still reports so that reductions are visible)
 EXT13 = [
     EG("y01", "abc", ["Sx"], [("Sx", [(S(O(T("a")), O(T("b")), O(T("c"))), "R")])]),
@@ -180,4 +194,8 @@ EXT13 = [
     EG("y08", "abc", ["Sx", "Lx"], [("Sx", [(S(N("Lx"), T("c")), "R")]), ("Lx", [(S(L(A(T("a"), T("b")), True)), "Ls")])]),
     EG("y09", "abc", ["Sx"], [("Sx", [(S(T("a"), L(S(T("b"), L(T("c"), False)), True, ["a"])), "R")])]),                            # star list inside a separated plus list
     EG("y10", "ab", [("Sx", True)], [("Sx", [(S(L(T("a"), True), T("b")), "R")])]),                                                  # no-eoi input
+    # two separated lists with the same element and different separators; a list inside the first-declared, self-referencing nonterminal
+    EG("y11", "abcde", ["Sx"], [("Sx", [(S(L(T("a"), True, ["b", "c"]), T("d")), "R1"), (S(T("e"), L(T("a"), True, ["c", "b"])), "R2")])]),
+    EG("y12", "abcd", ["Sx"], [("Sx", [(S(L(T("a"), True), T("b")), "R1"), (S(T("c"), N("Sx"), T("d")), "R2")])]),
+    EG("y13", "abcd", ["Zz", "Aa"], [("Zz", [(S(L(T("a"), False, ["b"]), T("c")), "R1"), (S(T("d"), N("Zz"), N("Aa")), "R2")]), ("Aa", [(S(L(S(T("a"), T("a")), True)), "R3")])]),
 ]
